@@ -105,6 +105,7 @@ IMPORTS = ('From Coq Require Import List ZArith NArith String.\nFrom Xr Require 
 
 
 class C02(PropertyCheck):
+    extra_vo = ['Lang/PrecInst.vo']          # model files evaluated by the correspondence that Props/<id>.v does not depend on
     id = 'C02'
     imports = IMPORTS
     technique = 'reference big-step semantics in Coq (lexical environments, strict left-to-right, documented short circuits) with proved properties; operator table extracted from parser.rs / xray.pest / the book and proved equal to the documented table; Coq proof that the precedence climber groups every operator sequence by that table; typed-program differential correspondence'
